@@ -69,6 +69,23 @@ def path_fn(ctx, arg):
                       sep=extra, detail=str(e), vkey='panic|' + fn)
 
 
+def path_resolve_ts(ctx, arg):
+    """resolve_timestamp (the resolver behind every `ts("…")` schema component) on EVERY pattern string of n chars,
+    optionally behind a fixed prefix such as `%`, and any second 1970-2199: Ok or Err, never a panic"""
+    I, w = ctx.I, ctx.w
+    prefix, n = arg
+    import models_chrono as MC
+    MC.LENIENT[0] = True
+    cs = [ord(c) for c in prefix] + c15.sym_text(w, n)
+    ts = w.fresh_int('ts', 0, 7_258_118_399)
+    try:
+        r = I.call('resolve_timestamp', [Str(cs), ts])
+        ctx.tag('ok' if peel(r).variant == 0 else 'err')
+    except Panic as e:
+        m = w.get_model()
+        ctx.violation(clause='panic', site='resolve_timestamp', value=mv(m, cs), extra={'ts': m.eval(ts, model_completion=True).as_long()}, detail=str(e), vkey='panic|resolve_timestamp')
+
+
 IDENTS = ['epoch', 'post', 'dev', 'alpha', 'rc', 'x']
 
 
